@@ -522,6 +522,15 @@ Theorem c07_db_writer_nodup : forall b pkgs init f,
 Proof. exact db_of_nodup. Qed.
 Print Assumptions c07_db_writer_nodup.
 
+Example c07_db_writer_nodup_inhabited :
+  strict_nodup_paths wit_prov_pkgs /\ top_childless_pkgs wit_prov_pkgs.
+Proof.
+  split.
+  - intros pk Hpk. apply nodupb_ok. cbn in Hpk. destruct Hpk as [E|[E|[]]]; subst pk; vm_compute; reflexivity.
+  - intros pk Hpk h c Hh Hc Hk Hl. cbn in Hpk. destruct Hpk as [E|[E|[]]]; subst pk; cbn in Hh;
+      repeat (destruct Hh as [Hh|Hh]; [subst h; first [exfalso; apply Hk; reflexivity | discriminate Hl]|]); contradiction.
+Qed.
+
 (* ... and when a package does, the record is the last header's whatever the
    clash decided: the same bytes 0755 then 0700 leave the first copy (0755) in
    the tree and 0700 (twice) in the database, on every backend (C07-F16) *)
